@@ -638,6 +638,13 @@ func c07FreshTarget(c *Ctx) {
 						why = "the target variable is not allocated for this entry (declared outside / captured)"
 						continue
 					}
+					// decoded in a loop into a variable declared before the loop: every element after the first is
+					// decoded over the previous one
+					if BlockCanReach(cl.Block(), cl.Block()) && !BlockCanReach(cl.Block(), a.Block()) {
+						fresh = false
+						why = "the decode runs in a loop and its target variable is declared outside that loop: one variable serves all entries"
+						continue
+					}
 					// no store into the variable (or its fields) before the call other than zero values
 					for _, ref := range *a.Referrers() {
 						var st *ssa.Store
